@@ -116,8 +116,15 @@ func mwtable(args []string) {
 			if r.Row.Mount {
 				base = "/mprobe"
 			}
+			if i%3 == 2 && r.Row.Mode != "401" {
+				// every third execution goes through the deprecated Middleware / MountedMiddleware wrappers
+				base = "/dprobe"
+				if r.Row.Mount {
+					base = "/dmprobe"
+				}
+			}
 			plain, esc, q := randPathQuery(rng, base)
-			if r.Row.Mount && plain == base {
+			if (r.Row.Mount || base == "/dprobe") && plain == base {
 				plain, esc = base+"/", base+"/"
 			}
 			full := esc
